@@ -199,7 +199,9 @@ class Runner:
             os.unlink(exe + '.3.o')
         except OSError:
             pass
-        if rc != 0:
+        if rc != 0 and re.search(r"declared inside parameter list|its scope is only this definition|conflicting types|redefin|redeclar|incompatible|"
+                                 r"previous (declaration|definition)|different (type|kind of symbol)|ambiguat", se):
+            # only diagnostics about the meaning of a declared name count; others (a '#warning' deprecation note, for example) do not
             return 'compile-error', 'default-warning: ' + norm_diag(se), se[:1500]
         cur = {h: infos[h] for h in headers}
         dropped = set()
